@@ -107,14 +107,33 @@ impl Scenario for IinScenario {
             script.push(op);
             match rng.below(24) {
                 0 => script.push(write_restart(false, Dest::Own)),
-                1 => script.push(write_restart(rng.chance(1, 4), if rng.bool() { Dest::Own } else { Dest::Bcast(*rng.pick(&[0xFFFFu16, 0xFFFE, 0xFFFD])) })),
+                1 => script.push(write_restart(
+                    rng.chance(1, 4),
+                    if rng.bool() {
+                        Dest::Own
+                    } else {
+                        Dest::Bcast(*rng.pick(&[0xFFFFu16, 0xFFFE, 0xFFFD]))
+                    },
+                )),
                 2 => script.push(Op::SetAppIin(rng.below(16) as u8)),
                 3 => {
-                    let func = *rng.pick(&[refapp::FUNC_DISABLE_UNSOL, refapp::FUNC_ENABLE_UNSOL, refapp::FUNC_RECORD_CURRENT_TIME, refapp::FUNC_READ, refapp::FUNC_DIRECT_OPERATE_NR]);
+                    let func = *rng.pick(&[
+                        refapp::FUNC_DISABLE_UNSOL,
+                        refapp::FUNC_ENABLE_UNSOL,
+                        refapp::FUNC_RECORD_CURRENT_TIME,
+                        refapp::FUNC_READ,
+                        refapp::FUNC_DIRECT_OPERATE_NR,
+                    ]);
                     let headers = match func {
-                        refapp::FUNC_DISABLE_UNSOL | refapp::FUNC_ENABLE_UNSOL => vec![ReqHeader::all(60, 2), ReqHeader::all(60, 3), ReqHeader::all(60, 4)],
+                        refapp::FUNC_DISABLE_UNSOL | refapp::FUNC_ENABLE_UNSOL => vec![
+                            ReqHeader::all(60, 2),
+                            ReqHeader::all(60, 3),
+                            ReqHeader::all(60, 4),
+                        ],
                         refapp::FUNC_READ => vec![ReqHeader::all(60, 2)],
-                        refapp::FUNC_DIRECT_OPERATE_NR => crate::verif::props::c04::gen_controls(rng),
+                        refapp::FUNC_DIRECT_OPERATE_NR => {
+                            crate::verif::props::c04::gen_controls(rng)
+                        }
                         _ => vec![],
                     };
                     script.push(Op::Request {
@@ -126,7 +145,11 @@ impl Scenario for IinScenario {
                         to: Dest::Bcast(*rng.pick(&[0xFFFFu16, 0xFFFE, 0xFFFD])),
                     });
                 }
-                4 => script.push(Op::Confirm { uns: false, seq: ConfSel::Expected, from: Who::Master }),
+                4 => script.push(Op::Confirm {
+                    uns: false,
+                    seq: ConfSel::Expected,
+                    from: Who::Master,
+                }),
                 _ => {}
             }
         }
@@ -258,7 +281,10 @@ impl Oracle for IinOracle {
             evs.push((o, Ev::Tl(tl)));
         }
         for (i, (t, cb)) in step.callbacks.iter().enumerate() {
-            evs.push((step.callback_orders.get(i).copied().unwrap_or(0), Ev::Cb(*t, cb)));
+            evs.push((
+                step.callback_orders.get(i).copied().unwrap_or(0),
+                Ev::Cb(*t, cb),
+            ));
         }
         for rx in &step.received {
             evs.push((rx.order, Ev::Frag(rx)));
@@ -266,7 +292,11 @@ impl Oracle for IinOracle {
         evs.sort_by_key(|e| e.0);
 
         // what this step's request is
-        let sent = if step.link_up { step.sent.clone() } else { None };
+        let sent = if step.link_up {
+            step.sent.clone()
+        } else {
+            None
+        };
         let is_echo_step = matches!(step.op, Op::Repeat) && self.echo_possible;
         match &step.op {
             Op::Request { .. } | Op::Raw { .. } => self.echo_possible = step.link_up,
@@ -288,15 +318,23 @@ impl Oracle for IinOracle {
                 if func == refapp::FUNC_WRITE && (!to_bcast || self.broadcast_enabled) {
                     if let Ok(f) = refapp::decode_fragment(&s.bytes) {
                         for o in &f.objects {
-                            if o.group == 80 && o.var == 1 && o.index == Some(7) && o.raw == vec![0] {
+                            if o.group == 80 && o.var == 1 && o.index == Some(7) && o.raw == vec![0]
+                            {
                                 clears_restart = true;
                             }
                         }
                     }
                 }
                 // (the unsolicited response may have been transmitted in this very step, before the outstation got to read the confirm)
-                let unsol_in_step = step.received.iter().any(|f| f.bytes.len() >= 2 && f.bytes[1] == 130 && f.bytes[0] & 0x20 != 0);
-                if func == refapp::FUNC_CONFIRM && s.bytes[0] & 0x10 == 0 && (self.unsol.is_some() || unsol_in_step) && self.bcast == Some(0xFFFE) {
+                let unsol_in_step = step
+                    .received
+                    .iter()
+                    .any(|f| f.bytes.len() >= 2 && f.bytes[1] == 130 && f.bytes[0] & 0x20 != 0);
+                if func == refapp::FUNC_CONFIRM
+                    && s.bytes[0] & 0x10 == 0
+                    && (self.unsol.is_some() || unsol_in_step)
+                    && self.bcast == Some(0xFFFE)
+                {
                     // a solicited confirm during an unsolicited wait may end a confirm-mandatory indication
                     self.bcast_known = false;
                 }
@@ -340,7 +378,10 @@ impl Oracle for IinOracle {
                 }
                 Ev::Tl(TL::Lock(site, _)) => {
                     if *site == "get_events_info" {
-                        snapshot = Some(Snapshot { live: live.clone(), overflow });
+                        snapshot = Some(Snapshot {
+                            live: live.clone(),
+                            overflow,
+                        });
                     }
                     if *site == "write_unsolicited" || *site == "write_response_headers" {
                         // what the next fragment carries was selected here: only events that exist now qualify
@@ -360,7 +401,11 @@ impl Oracle for IinOracle {
                         overflow = self.ledger.overflow;
                     }
                     Cb::Info(s) => {
-                        let seq_of = |s: &str| s.split_whitespace().nth(1).and_then(|x| x.parse::<u8>().ok());
+                        let seq_of = |s: &str| {
+                            s.split_whitespace()
+                                .nth(1)
+                                .and_then(|x| x.parse::<u8>().ok())
+                        };
                         if s.starts_with("broadcast_received") {
                             if let Some(snt) = &sent {
                                 if snt.dest >= 0xFFFD {
@@ -374,15 +419,24 @@ impl Oracle for IinOracle {
                                     }
                                 }
                             }
-                        } else if s.starts_with("solicited_confirm_timeout") || s.starts_with("solicited_confirm_wait_new_request") {
-                            if self.sol.as_ref().map(|c| !c.ids.is_empty()).unwrap_or(false) {
+                        } else if s.starts_with("solicited_confirm_timeout")
+                            || s.starts_with("solicited_confirm_wait_new_request")
+                        {
+                            if self
+                                .sol
+                                .as_ref()
+                                .map(|c| !c.ids.is_empty())
+                                .unwrap_or(false)
+                            {
                                 self.saw_overflow_or_unconfirmed = true;
                                 self.bump("probe.series_ended_unconfirmed");
                             }
                             self.sol = None;
                         } else if s.starts_with("solicited_confirm_received") {
                             if let Some(q) = seq_of(s) {
-                                if self.bcast == Some(0xFFFE) && self.bcast_reported_in.contains(&(false, q)) {
+                                if self.bcast == Some(0xFFFE)
+                                    && self.bcast_reported_in.contains(&(false, q))
+                                {
                                     self.bcast = None;
                                     self.bcast_reported_in.clear();
                                 }
@@ -390,14 +444,23 @@ impl Oracle for IinOracle {
                             self.sol = None;
                         } else if s.starts_with("unsolicited_confirmed") {
                             if let Some(q) = seq_of(s) {
-                                if self.bcast == Some(0xFFFE) && self.bcast_reported_in.contains(&(true, q)) {
+                                if self.bcast == Some(0xFFFE)
+                                    && self.bcast_reported_in.contains(&(true, q))
+                                {
                                     self.bcast = None;
                                     self.bcast_reported_in.clear();
                                 }
                             }
                             self.unsol = None;
-                        } else if s.starts_with("unsolicited_confirm_timeout") && s.ends_with("false") {
-                            if self.unsol.as_ref().map(|c| !c.ids.is_empty()).unwrap_or(false) {
+                        } else if s.starts_with("unsolicited_confirm_timeout")
+                            && s.ends_with("false")
+                        {
+                            if self
+                                .unsol
+                                .as_ref()
+                                .map(|c| !c.ids.is_empty())
+                                .unwrap_or(false)
+                            {
                                 self.saw_overflow_or_unconfirmed = true;
                                 self.bump("probe.series_ended_unconfirmed");
                             }
@@ -408,23 +471,49 @@ impl Oracle for IinOracle {
                 },
                 Ev::Frag(rx) => {
                     let frag = match &rx.frag {
-                        Some(f) if f.func == refapp::FUNC_RESPONSE || f.func == refapp::FUNC_UNSOL_RESPONSE => f,
+                        Some(f)
+                            if f.func == refapp::FUNC_RESPONSE
+                                || f.func == refapp::FUNC_UNSOL_RESPONSE =>
+                        {
+                            f
+                        }
                         _ => continue,
                     };
                     let unsol = frag.func == refapp::FUNC_UNSOL_RESPONSE;
                     // newly formatted responses evaluate their IIN at a get_events_info lock point right before they are
                     // written; anything else is a copy of an earlier fragment (C05)
                     let snap = snapshot.take();
-                    let is_write_response = !unsol && sent.as_ref().map(|s| s.bytes.len() >= 2 && s.bytes[1] == refapp::FUNC_WRITE && s.dest == self.own && s.bytes[0] & 0x0F == frag.ctrl.seq).unwrap_or(false);
+                    let is_write_response = !unsol
+                        && sent
+                            .as_ref()
+                            .map(|s| {
+                                s.bytes.len() >= 2
+                                    && s.bytes[1] == refapp::FUNC_WRITE
+                                    && s.dest == self.own
+                                    && s.bytes[0] & 0x0F == frag.ctrl.seq
+                            })
+                            .unwrap_or(false);
                     if is_write_response && clears_restart && sent_is_plain_from_master {
                         self.restart = Tri::No;
                     }
                     let is_disable_response = !unsol
                         && !is_echo_step
                         && sent_is_plain_from_master
-                        && sent.as_ref().map(|s| s.dest == self.own && s.bytes[1] == refapp::FUNC_DISABLE_UNSOL && s.bytes[0] & 0x0F == frag.ctrl.seq).unwrap_or(false);
+                        && sent
+                            .as_ref()
+                            .map(|s| {
+                                s.dest == self.own
+                                    && s.bytes[1] == refapp::FUNC_DISABLE_UNSOL
+                                    && s.bytes[0] & 0x0F == frag.ctrl.seq
+                            })
+                            .unwrap_or(false);
                     // the answer to an exact retransmission is an echo (a copy as far as C13 is concerned)
-                    let is_echo = is_echo_step && !unsol && sent.as_ref().map(|s| !s.bytes.is_empty() && s.bytes[0] & 0x0F == frag.ctrl.seq).unwrap_or(false);
+                    let is_echo = is_echo_step
+                        && !unsol
+                        && sent
+                            .as_ref()
+                            .map(|s| !s.bytes.is_empty() && s.bytes[0] & 0x0F == frag.ctrl.seq)
+                            .unwrap_or(false);
                     let snap = match snap {
                         Some(s) if !is_echo => s,
                         _ => {
@@ -440,7 +529,12 @@ impl Oracle for IinOracle {
                     };
                     let meas = refapp::measurements(frag);
                     let events: Vec<&refapp::Meas> = meas.iter().filter(|m| m.is_event).collect();
-                    let own_ids = match match_events_before(&self.ledger, &events, &discarded_now, newest_at_write.take().flatten()) {
+                    let own_ids = match match_events_before(
+                        &self.ledger,
+                        &events,
+                        &discarded_now,
+                        newest_at_write.take().flatten(),
+                    ) {
                         Ok(ids) => ids,
                         Err(_) => {
                             self.desync = true; // C03's business
@@ -452,7 +546,13 @@ impl Oracle for IinOracle {
                         if own_ids.contains(id) {
                             continue;
                         }
-                        if !unsol && self.unsol.as_ref().map(|c| c.ids.contains(id)).unwrap_or(false) {
+                        if !unsol
+                            && self
+                                .unsol
+                                .as_ref()
+                                .map(|c| c.ids.contains(id))
+                                .unwrap_or(false)
+                        {
                             continue;
                         }
                         if let Some(e) = self.ledger.events.get(id) {
@@ -462,9 +562,16 @@ impl Oracle for IinOracle {
                         }
                     }
                     let want = (bits[0], bits[1], bits[2], snap.overflow);
-                    let actual = (iin.0 & 0x02 != 0, iin.0 & 0x04 != 0, iin.0 & 0x08 != 0, iin.1 & 0x08 != 0);
+                    let actual = (
+                        iin.0 & 0x02 != 0,
+                        iin.0 & 0x04 != 0,
+                        iin.0 & 0x08 != 0,
+                        iin.1 & 0x08 != 0,
+                    );
                     if actual != want {
-                        let which = if actual.3 != want.3 && (actual.0, actual.1, actual.2) == (want.0, want.1, want.2) {
+                        let which = if actual.3 != want.3
+                            && (actual.0, actual.1, actual.2) == (want.0, want.1, want.2)
+                        {
                             "overflow-bit"
                         } else if actual.3 == want.3 {
                             "class-bits"
@@ -477,7 +584,10 @@ impl Oracle for IinOracle {
                             } else {
                                 "not-set"
                             }
-                        } else if (actual.0 && !want.0) || (actual.1 && !want.1) || (actual.2 && !want.2) {
+                        } else if (actual.0 && !want.0)
+                            || (actual.1 && !want.1)
+                            || (actual.2 && !want.2)
+                        {
                             "set-without-unwritten-events"
                         } else {
                             "clear-although-unwritten-events"
@@ -525,8 +635,15 @@ impl Oracle for IinOracle {
                         if bit != self.bcast.is_some() {
                             return Some(Violation::new(
                                 "C13/broadcast-iin",
-                                if bit { "set-without-broadcast" } else { "not-set-after-broadcast" },
-                                format!("step {}: broadcast indication is {} but the model says {:?}", step.op_index, bit, self.bcast),
+                                if bit {
+                                    "set-without-broadcast"
+                                } else {
+                                    "not-set-after-broadcast"
+                                },
+                                format!(
+                                    "step {}: broadcast indication is {} but the model says {:?}",
+                                    step.op_index, bit, self.bcast
+                                ),
                             ));
                         }
                         if let Some(addr) = self.bcast {
@@ -547,7 +664,10 @@ impl Oracle for IinOracle {
                         }
                     }
                     // application-controlled bits
-                    let app_actual = ((iin.0 >> 4) & 0x01) | (((iin.0 >> 5) & 0x01) << 1) | (((iin.0 >> 6) & 0x01) << 2) | (((iin.1 >> 5) & 0x01) << 3);
+                    let app_actual = ((iin.0 >> 4) & 0x01)
+                        | (((iin.0 >> 5) & 0x01) << 1)
+                        | (((iin.0 >> 6) & 0x01) << 2)
+                        | (((iin.1 >> 5) & 0x01) << 3);
                     if app_actual != self.app_bits & 0x0F {
                         return Some(Violation::new(
                             "C13/application-iin",
@@ -560,13 +680,18 @@ impl Oracle for IinOracle {
                             ),
                         ));
                     }
-                    let classes_buffered: BTreeSet<u8> = self.ledger.live().map(|e| e.class).collect();
+                    let classes_buffered: BTreeSet<u8> =
+                        self.ledger.live().map(|e| e.class).collect();
                     if self.saw_overflow_or_unconfirmed && classes_buffered.len() >= 2 {
                         self.nontrivial = true;
                     }
                     self.fp = mix(&[self.fp, iin.0 as u64, iin.1 as u64, unsol as u64]);
                     if frag.ctrl.con {
-                        let c = Carrier { seq: frag.ctrl.seq, ids: own_ids.clone(), t_ms: rx.t_ms };
+                        let c = Carrier {
+                            seq: frag.ctrl.seq,
+                            ids: own_ids.clone(),
+                            t_ms: rx.t_ms,
+                        };
                         if unsol {
                             self.unsol = Some(c);
                         } else {
@@ -584,13 +709,19 @@ impl Oracle for IinOracle {
         self.ledger.overflow = overflow;
         // a broadcast that the session did not announce through its information callback
         if let Some(s) = &sent {
-            if s.dest >= 0xFFFD && sent_is_plain_from_master && s.bytes[1] != refapp::FUNC_CONFIRM && !bcast_processed {
+            if s.dest >= 0xFFFD
+                && sent_is_plain_from_master
+                && s.bytes[1] != refapp::FUNC_CONFIRM
+                && !bcast_processed
+            {
                 self.bcast_known = false;
             }
         }
         let kind = match &step.op {
             Op::Update(_) | Op::UpdateAtLock { .. } => 1,
-            Op::Request { func, to, .. } => 10 + *func as u64 + if matches!(to, Dest::Bcast(_)) { 100 } else { 0 },
+            Op::Request { func, to, .. } => {
+                10 + *func as u64 + if matches!(to, Dest::Bcast(_)) { 100 } else { 0 }
+            }
             Op::Confirm { uns, .. } => 40 + *uns as u64,
             Op::Sleep(_) | Op::SleepRel { .. } => 51,
             Op::Connect | Op::Disconnect { .. } => 52,
